@@ -28,6 +28,11 @@ P = {
    "Static analysis. For all 40 strategy types: len(actions) = max(n, warm-up) (so exactly n beyond the warm-up and never fewer than n), anchor exactly 0, the final prefix is strategy.Hold and covers every element computed from another Shift's fill value, for ALL admissible configurations and n >= 0; compounds/decorators against the Strategy contract; every registry entry's type was analysed; Action values originate only from the three constants.",
    "Trusts go/types, the Strategy interface contract for wrapped strategies, sub-indicator contracts, Γ, Fourier–Motzkin. Alligator and SMMA strategies emit n+1 actions one day late (pinned by their tests): known findings.",
    "§4 C05"),
+ "C09": (True,
+   "SSA mod-summary analysis over go/ssa with a CHA call graph (which parameters / captured variables / package variables may a function write through, to a fixpoint; allocations and received elements are fresh) + closure-cell ownership lint",
+   "Static analysis of the mechanism the property anchors: no store, map update or delete reachable from any Compute/Report/IdlePeriod/Name/String method of the indicator and strategy types (through static calls, interface calls resolved by class-hierarchy analysis, goroutines and closures) goes through the receiver or to a package-level variable, so all per-run state is allocated per call; and every mutable local captured by a function that a stage runs in its goroutine has that function as its only user. With C03's determinacy and linearity rules this makes repeated and concurrent calls independent. Not a dynamic race detection and silent about third-party code.",
+   "Trusts go/ssa, the CHA call graph and the freshness model (allocations, constructor results, received channel elements are not shared); aliasing is field-insensitive (over-approximate).",
+   "§4 C09"),
  "C10": (True,
    "typed-AST lints on every asset.Repository implementation: synchronous consumption and error propagation in Append, decision table of the GetSince filter over {<,=,>}, zero-time returns carry an error",
    "Static analysis of structural necessary conditions only: every Append consumes its input in the caller's goroutine and returns the error of each write (needed for read-your-writes); the GetSince filter closures keep exactly the orderings {=,>} of (snapshot date, bound), decided on the finite ordering domain and identically in the sibling implementations; LastDate never returns the zero time with a nil error; unknown assets are errors. Equivalence with a map under arbitrary histories (file system, SQL driver, codecs) is not decided.",
@@ -38,6 +43,16 @@ P = {
    "Static analysis of agreement rules without which some value cannot round-trip: same reflect kinds on both sides, a bit size for every sized kind used identically by formatter and parser, FormatFloat(…, -1, bits), one layout value for Format and Parse, WriteToFile truncates and AppendToFile appends (flag sets constant-folded), append only to an existing non-empty file, records indexed through the header map, JSON delimiters agree. Equality of written and re-read values for all inputs (strconv, encoding/csv, encoding/json, time) is not decided.",
    "Trusts go/types constant folding and the documented semantics of the strconv/os functions named. Repaired: WriteToFile lacked O_TRUNC (ac57338); kindToBits lacked Uint8 (6348dc3).",
    "§4 C11"),
+ "C12": (True,
+   "typed-AST structure lints on the Sync.Run worker closure + SSA shared-write analysis rooted at the go statement started in a loop + go/cfg lock-state lint on InMemoryRepository",
+   "Static analysis of structural conditions: start date = target's last date + 1 day or the default; GetSince(name,start) feeds Append(name,·); every error branch in the per-asset loop records the failure and continues (fault isolation) and Run returns an error iff one was recorded; wg.Wait precedes the return; one job channel for all workers; no worker writes memory shared with the others without synchronisation (SSA mod-summaries through the Repository interface via CHA); InMemoryRepository touches its map only under its mutex on every path. Resulting repository contents and idempotence depend on repository semantics and are not decided.",
+   "Trusts go/types, go/ssa+CHA, go/cfg, sync/atomic and sync.Mutex. Repaired: racy hasErrors flag (8f086f1), unsynchronised InMemoryRepository (e6c9678).",
+   "§4 C12"),
+ "C13": (True,
+   "typed-AST protocol lints on Backtest.Run/worker + SSA shared-write analysis rooted at `go b.worker` + go/cfg lock-state lints on both report types + comparator totality lint",
+   "Static analysis of structural conditions: Begin before the workers, End after Wait; per asset AssetBegin, exactly one Write per strategy (unconditional, fed by ComputeWithOutcome of that strategy on a fresh SliceToChan), AssetEnd; nothing reachable from a worker writes shared memory without a mutex, and both bundled reports touch their maps only under the mutex on every path; sort comparators do not convert a float difference to int. Equality of the reported numbers with a direct evaluation is not decided.",
+   "Trusts go/types, go/ssa+CHA, go/cfg. Repaired: unsynchronised reports (bd51cda), int(float difference) comparators (9dddcd8).",
+   "§4 C13"),
  "C14": (True,
    "stream-shape calculus on every strategy Report: each column stream vs. the date stream (length and anchor), symbolic in the periods",
    "Static analysis. The report template zips the date stream with one Value() per column per row; for all 40 Report methods every column found in the constructed helper.Report is proved to have exactly the date stream's length and anchor for all admissible configurations and every n beyond the warm-up.",
